@@ -140,6 +140,14 @@ def r1(ctx):
                     continue
                 ok = isinstance(e, ast.Tuple) and all(common.h5_read_key(x) is not None for x in e.elts)
                 if not ok:
+                    # a value looked up in a local table (`stored["treatment_mapping_names"]`, a record's field) is neither a read of the
+                    # file nor something computed from the rows as far as this rule can tell: what the table holds is not followed
+                    elts_ = e.elts if isinstance(e, ast.Tuple) else [e]
+                    via_table = [x for x in elts_ if common.h5_read_key(x) is None and isinstance(x, ast.Subscript) and isinstance(x.value, ast.Name)
+                                 and isinstance(x.slice, ast.Constant) and isinstance(x.slice.value, str)]
+                    if via_table and all(common.h5_read_key(x) is not None or x in via_table for x in elts_):
+                        raise AnalysisError(f"{s.site}: {k} is taken from the local table `{U(via_table[0].value)}` ({U(e)[:80]}); how that table is filled from "
+                                            f"the file is not a form this rule reads")
                     problems.append(f"{k} is not the stored mapping read from the file: {U(e)[:80]}")
             else:
                 problems.append(f"{k} is `{U(s.kw[k])[:80]}`, not the parent's `{k}` object")
